@@ -160,12 +160,21 @@ func segmentFMP4ReadHeader(r io.ReadSeeker) (*fmp4.Init, time.Duration, error) {
 
 	// read ftyp and moov
 
+	fileSize, err := r.Seek(0, io.SeekEnd)
+	if err != nil {
+		return nil, 0, err
+	}
+
+	if (uint64(ftypSize) + uint64(moovSize)) > uint64(fileSize) {
+		return nil, 0, fmt.Errorf("invalid ftyp or moov size")
+	}
+
 	_, err = r.Seek(0, io.SeekStart)
 	if err != nil {
 		return nil, 0, err
 	}
 
-	buf = make([]byte, uint64(ftypSize+moovSize))
+	buf = make([]byte, uint64(ftypSize)+uint64(moovSize))
 
 	_, err = io.ReadFull(r, buf)
 	if err != nil {
@@ -187,7 +196,12 @@ func segmentFMP4ReadDurationFromParts(
 	r io.ReadSeeker,
 	init *fmp4.Init,
 ) (time.Duration, error) {
-	_, err := r.Seek(0, io.SeekStart)
+	fileSize, err := r.Seek(0, io.SeekEnd)
+	if err != nil {
+		return 0, err
+	}
+
+	_, err = r.Seek(0, io.SeekStart)
 	if err != nil {
 		return 0, err
 	}
@@ -334,6 +348,10 @@ outer:
 
 		tfhdSize := uint32(buf[0])<<24 | uint32(buf[1])<<16 | uint32(buf[2])<<8 | uint32(buf[3])
 
+		if tfhdSize < 8 || int64(tfhdSize) > fileSize {
+			return 0, fmt.Errorf("invalid tfhd size")
+		}
+
 		buf2 := make([]byte, tfhdSize-8)
 
 		_, err = io.ReadFull(r, buf2)
@@ -365,6 +383,10 @@ outer:
 
 		tfdtSize := uint32(buf[0])<<24 | uint32(buf[1])<<16 | uint32(buf[2])<<8 | uint32(buf[3])
 
+		if tfdtSize < 8 || int64(tfdtSize) > fileSize {
+			return 0, fmt.Errorf("invalid tfdt size")
+		}
+
 		buf2 = make([]byte, tfdtSize-8)
 
 		_, err = io.ReadFull(r, buf2)
@@ -390,6 +412,10 @@ outer:
 		}
 
 		trunSize := uint32(buf[0])<<24 | uint32(buf[1])<<16 | uint32(buf[2])<<8 | uint32(buf[3])
+
+		if trunSize < 8 || int64(trunSize) > fileSize {
+			return 0, fmt.Errorf("invalid trun size")
+		}
 
 		buf2 = make([]byte, trunSize-8)
 
@@ -533,6 +559,10 @@ func segmentFMP4MuxParts(
 
 				sampleOffset := dataOffset
 				sampleSize := e.SampleSize
+
+				if (sampleOffset + uint64(sampleSize)) > uint64(fileSize) {
+					return nil, fmt.Errorf("invalid sample offset or size")
+				}
 
 				err = m.writeSample(
 					dts,
